@@ -20,7 +20,7 @@ pub fn def() -> CheckDef {
         },
         gen,
         run,
-        rule: "one case = one base image (drawn history or independent-writer layout) and the corruptions of C05 (field x value enumeration, truncations, flips, lost/misdirected writes, mid-operation crash images), filtered to those that PERMISSIVE OPEN ACCEPTS. On every accepted damaged image every single mutating operation is enumerated against every existing object (create small/large stream and storage in each storage; write-append, overwrite and set_len to 0/1/64/4095/4096/grow on each stream; remove each stream/storage; remove_storage_all on the root; setters; flush) - each on a fresh copy of the image, followed by flush, walk and reading everything back - plus drawn 2-6 op histories. Oracle: Ok or Err; no panic (index, overflow, assertion); per-call seam-step budget. sub_runs = (damaged image, operation) executions. Non-trivial: at least one accepted damaged image was mutated; distinct = distinct damaged-image hashes. The last two cases (ten in the thorough tier) are batches of 1500 stale-handle scenarios on undamaged files (src/stale.rs): calls through a handle whose stream was removed and whose directory slot was left free / taken by a storage / taken by a shorter or longer stream.",
+        rule: "one case = one base image (drawn history or independent-writer layout) and the corruptions of C05 (field x value enumeration, truncations, flips, lost/misdirected writes, mid-operation crash images), filtered to those that PERMISSIVE OPEN ACCEPTS. On every accepted damaged image every single mutating operation is enumerated against every existing object (create small/large stream and storage in each storage; write-append, overwrite and set_len to 0/1/64/4095/4096/grow on each stream; remove each stream/storage; remove_storage_all on the root; setters; flush; remove one object, then create and look up names in every storage and list it) - each on a fresh copy of the image, followed by flush, walk and reading everything back - plus drawn 2-6 op histories. Oracle: Ok or Err; no panic (index, overflow, assertion); per-call seam-step budget. sub_runs = (damaged image, operation) executions. Non-trivial: at least one accepted damaged image was mutated; distinct = distinct damaged-image hashes. The last two cases (ten in the thorough tier) are batches of 1500 stale-handle scenarios on undamaged files (src/stale.rs): calls through a handle whose stream was removed and whose directory slot was left free / taken by a storage / taken by a shorter or longer stream.",
         assumptions: &["wrong data on a damaged file is not this property's business", "termination judged by a seam-step budget per API call and the supervisor's CPU watchdog"],
         cpu_limit_s: 1200,
         fault_kinds: "as C05 (F-FC enumerated, F-BF, F-TR, F-LW, F-MW, F-CR/F-WT crash images), restricted to images permissive open accepts",
@@ -97,6 +97,30 @@ fn single_ops(lib: &mut Lib) -> Vec<Vec<Op>> {
             out.push(vec![Op::HOpen { h: 0, path: p.clone() }, Op::HSetLen { h: 0, n }, Op::HFlush { h: 0 }]);
         }
         out.push(vec![Op::SetStateBits(p.clone(), 9)]);
+    }
+    // remove one object, then create in EVERY storage (the freed directory slot is taken again
+    // while whatever else pointed at it still does), look names up on both sides of the new
+    // entries, list everything
+    let victims: Vec<Op> = streams.iter().take(8).map(|(p, _)| Op::RemoveStream(p.clone())).chain(storages.iter().skip(1).take(4).map(|s| Op::RemoveStorageAll(s.clone()))).collect();
+    for v in victims {
+        let gone = match &v {
+            Op::RemoveStream(p) | Op::RemoveStorageAll(p) => p.clone(),
+            _ => unreachable!(),
+        };
+        let mut seq = vec![v];
+        for s in storages.iter().take(6) {
+            if *s == gone || s.starts_with(&format!("{}/", gone)) {
+                continue;
+            }
+            let base = if s == "/" { String::new() } else { s.clone() };
+            seq.push(Op::WriteWhole { path: format!("{}/mq", base), len: 100, nonce: 7 });
+            seq.push(Op::Exists(format!("{}/a", base)));
+            seq.push(Op::Exists(format!("{}/zzzz", base)));
+            seq.push(Op::CreateStorage(format!("{}/zq", base)));
+            seq.push(Op::ReadStorage(if s == "/" { "/".into() } else { s.clone() }));
+        }
+        seq.push(Op::Walk);
+        out.push(seq);
     }
     out.push(vec![Op::RemoveStorageAll("/".into())]);
     // enough storages to need a new directory sector
@@ -223,7 +247,7 @@ pub fn run(case: &Case, _known: &BTreeSet<String>) -> Outcome {
     let mut rng = Rng::new(case.param("seed", 1) as u64 ^ 0x1111);
     let mut muts = c05::all_mutations(&base, case, &mut rng, false);
     // bias: keep every corruption of what open does not follow, sample the rest
-    let keep = |d: &str| d.contains(".start") || d.contains(".size") || d.starts_with("fat[") || d.starts_with("minifat[") || d.starts_with("crash image") || d.contains("lost write") || d.contains("misdirected");
+    let keep = |d: &str| d.contains(".child=") || d.contains(".left=") || d.contains(".right=") || d.contains(".start") || d.contains(".size") || d.starts_with("fat[") || d.starts_with("minifat[") || d.starts_with("crash image") || d.contains("lost write") || d.contains("misdirected");
     let mut sel = vec![];
     for m in muts.drain(..) {
         if keep(&m.desc()) || rng.chance(1, 6) {
@@ -255,8 +279,13 @@ pub fn run(case: &Case, _known: &BTreeSet<String>) -> Outcome {
         // single ops are enumerated only for a bounded number of images per case; every
         // accepted image gets a drawn subset
         let full = accepted <= case.param("full_images", 50) as u64;
+        // an accepted corruption of a tree link: everything is run (few survive open)
+        let link = desc.contains(".child=") || desc.contains(".left=") || desc.contains(".right=");
+        if link {
+            o.stats.probe("accepted_image_with_a_damaged_tree_link");
+        }
         for ops in &lists {
-            if !full && !rng.chance(1, 12) {
+            if !full && !link && !rng.chance(1, 12) {
                 continue;
             }
             marker.ops = ops.clone();
